@@ -21,7 +21,11 @@ def load_known_findings(prop):
 
 
 def kf_match(finding, job, o):
-    if not fnmatch.fnmatch(job.name, finding.get('job', '*')):
+    if finding.get('regions') is not None:
+        # region findings apply only to the job that runs inside that region
+        if job.finding_region != finding['id']:
+            return False
+    elif not fnmatch.fnmatch(job.name, finding.get('job', '*')):
         return False
     for pat in finding.get('obligations', []):
         if fnmatch.fnmatch(o['id'], pat) or pat in o['text'] or pat in o.get('clause', ''):
@@ -133,7 +137,11 @@ def run_check(prop, mod, tier, level, only=None):
     return rc
 
 
-def write_evidence(prop, mod, unit, jobs, tier, seed, level, wall, violations, known_hits, undecided_reason, undec):
+def write_evidence(prop, mod, unit, all_jobs, tier, seed, level, wall, violations, known_hits, undecided_reason, undec):
+    # jobs that run inside a known-finding region are reported separately: their listed failing
+    # obligations are the finding, they are neither counted as obligations nor as discharged
+    jobs = [j for j in all_jobs if not j.finding_region]
+    region_jobs = [j for j in all_jobs if j.finding_region]
     nobl = sum(len(j.obligations) for j in jobs)
     ndis = sum(1 for j in jobs for o in j.obligations if o['status'] == 'SUCCESS')
     by_backend, solver_s = {}, {}
@@ -187,6 +195,11 @@ def write_evidence(prop, mod, unit, jobs, tier, seed, level, wall, violations, k
         'witnesses': getattr(unit, 'witnesses', []) if unit is not None else [],
         'tools': tool_versions(),
         'known_findings_reported': sorted(known_hits),
+        'known_finding_region_groups': [{'job': j.name, 'region': j.instance.get('inside_region'), 'status': j.status,
+                                         'obligations': len(j.obligations),
+                                         'failed_listed': [o['id'] for o in j.failed if o.get('known_finding')],
+                                         'failed_unlisted': [o['id'] for o in j.failed if not o.get('known_finding')]}
+                                        for j in region_jobs],
         'samples': samples,
         'exhaustive': False,
     }
